@@ -40,7 +40,7 @@ RemoveLastOnTrace(rec) ==
 AllPlain(rec) == \A i \in 1..Len(rec.in.shapes) : rec.in.shapes[i] = "plain"
 HasOutside(rec) == \E i \in 1..Len(rec.in.shapes) : rec.in.shapes[i] \in {"dotdot", "abs"}
 HasSub(rec) == \E i \in 1..Len(rec.in.shapes) : rec.in.shapes[i] = "sub"
-Faulted(rec) == rec.in.fault.kind # "none"
+Faulted(rec) == rec.in.fault.kind \notin {"none", "stale"}     \* a stale destination file is not a failure
 
 \* nothing outside the control file's directory and the destination is read into the destination,
 \* overwritten, moved or deleted
